@@ -198,6 +198,10 @@ static int URI_FUNC(AddBaseUriImpl)(URI_TYPE(Uri) * absDest,
 					if (!URI_FUNC(RemoveDotSegmentsAbsolute)(absDest, memory)) {
 						return URI_ERROR_MALLOC;
 					}
+
+					if (!URI_FUNC(FixAmbiguity)(absDest, memory)) {
+						return URI_ERROR_MALLOC;
+					}
 	/* [05/32]		T.query = R.query; */
 					absDest->query = relSource->query;
 	/* [06/32]	else */
@@ -253,6 +257,10 @@ static int URI_FUNC(AddBaseUriImpl)(URI_TYPE(Uri) * absDest,
 									return res;
 								}
 								if (!URI_FUNC(RemoveDotSegmentsAbsolute)(absDest, memory)) {
+									return URI_ERROR_MALLOC;
+								}
+
+								if (!URI_FUNC(FixAmbiguity)(absDest, memory)) {
 									return URI_ERROR_MALLOC;
 								}
 	/* [22/32]				else */
